@@ -493,6 +493,7 @@ func (w *world) doOp(ctx context.Context, ts *taskState, op sim.Op, i int) {
 		}
 		w.mutTok.Unlock()
 	}
+	cv.register(&o)
 	e.Logf("%s %s -> %s", ts.name, op.String(), w.canon(o.String()))
 	if strings.HasPrefix(o.Err, "other:") {
 		e.Violate(w.prop(), "undocumented_error", "%s %s failed with an error outside the contract (no fault was injected): %s", ts.name, opDesc(op), o.Err[6:])
